@@ -1,8 +1,8 @@
 CONSTANTS
-  MaxLen = 8
-  Alphabet = {"0", "1", "D", "F"}
+  MaxLen = 6
+  Alphabet = {"0", "1", "8", "D", "F"}
   Mode = "uplus"
-  Openers = {"ql1"}
+  Openers = {"ql2"}
 SPECIFICATION Spec
 INVARIANTS RoundTrip DepthPositive Emit
 PROPERTY Progress
